@@ -15,12 +15,32 @@
     token in the stream, for every stream and parser state;
   * `C02_pointer_level`, `C02_pointer_ops_compose`: what the chain denotes — each `*` makes a
     pointer to the type so far whose `const` / `volatile` flags are exactly the qualifiers
-    written after it (in any order and number), and chains compose level by level.
+    written after it (in any order and number), and chains compose level by level;
+  * `C02_fundamental_group`, `C02_fundamental_single` (`Theorems/FundGroup.lean`): fundamental-type
+    keyword groups — after a first keyword of the compound set (regenerated:
+    `C02_compound_keywords`), `_parse_pqname_fundamental` collects EVERY following keyword of the
+    set, in order, whatever their number, stops at the first other token without consuming it,
+    and names the type by the keywords joined with single blanks; any other fundamental keyword
+    stands alone and consumes nothing.
+  * `C02_plain_qualified_name` (`Theorems/PqName.lean`): qualified names — for identifiers
+    `n1 :: … :: nk` of any length followed by a token that is neither `<` nor `::`, `_parse_pqname`
+    returns exactly the segments `[n1, …, nk]` (no class key, no `typename`, no operator) and
+    leaves the following token in the stream, whatever `fn_ok` / `compound_ok` / `fund_ok`.
+  * `C02_type_name` (`Theorems/TypeName.lean`): `_parse_type` on identifiers `n1 :: … :: nk` followed
+    by a token that starts the declarator returns the type `n1::…::nk` (not const, not volatile, no
+    specifiers) and leaves that token in the stream;
+  * `C02_declarator_variable` (`Theorems/VarDecl.lean`): one declarator `ptr-ops x` and the `,` / `;`
+    after it, outside a class: exactly one `on_variable` whose type is the chain the declarator
+    denotes over the given base type (any non-function type), for chains of any length; the loop
+    ends at `;` and goes on after `,` with the comma's location and no doc text.
 -/
 import CxxModel.Interp
 import CxxModel.Tables
 import CxxModel.Parser.Decl
 import CxxModel.Theorems.PtrChain
+import CxxModel.Theorems.FundGroup
+import CxxModel.Theorems.PqName
+import CxxModel.Theorems.VarDecl
 namespace Cxx
 
 /-- after `bounded`, the continuation runs on the outer buffer -/
@@ -70,5 +90,86 @@ example (n : PQName) :
     applyPtrOps (.type n false false) ["*", "const", "volatile", "*", "volatile"] =
       some (.ptr (.ptr (.type n false false) true true) false true) := by
   simp [applyPtrOps, ptrStep, P.isRefLike, P.setConst, P.setVolatile]
+
+theorem C02_compound_keywords :
+    Gen.compoundFundamentals = ["char", "double", "float", "int", "long", "short", "signed", "unsigned"] := by decide
+
+theorem C02_fundamental_group (env : Env) (F : Nat) (first : String) (ks : List Tok) (w : World) (bmid b' : Buf) (term : Tok)
+    (hfirst : Gen.compoundFundamentals.contains first = true)
+    (hall : ∀ k ∈ ks, Gen.compoundFundamentals.contains k.type = true)
+    (hy : Yields env.cfg w.buf ks bmid) (htok : tokenEofOk env.cfg bmid = .ok (some term, b'))
+    (hterm : Gen.compoundFundamentals.contains term.type = false) (hF : ks.length + 1 ≤ F) :
+    ∃ (w' : World) (t' : Tok),
+      interp env (P.parsePqnameFundamental F first) w = (w', .ok (.fund (P.joinWith " " (first :: ks.map (·.value))))) ∧
+      SameParse w w' ∧ tokenEofOk env.cfg w'.buf = .ok (some t', b') ∧ t'.type = term.type ∧ t'.value = term.value :=
+  fundamental_group env F first ks w bmid b' term hfirst hall hy htok hterm hF
+
+theorem C02_fundamental_single (env : Env) (F : Nat) (first : String) (w : World)
+    (hfirst : Gen.compoundFundamentals.contains first = false) :
+    interp env (P.parsePqnameFundamental F first) w = (w, .ok (.fund first)) :=
+  fundamental_single env F first w hfirst
+
+/-! non-vacuity: `unsigned long long int` -/
+example : Gen.compoundFundamentals.contains "unsigned" = true ∧
+    (∀ k ∈ ["long", "long", "int"], Gen.compoundFundamentals.contains k = true) ∧
+    Gen.compoundFundamentals.contains "NAME" = false ∧
+    P.joinWith " " ("unsigned" :: ["long", "long", "int"]) = "unsigned long long int" := by
+  refine ⟨by decide, by decide, by decide, by decide⟩
+
+section
+open P
+
+theorem C02_plain_qualified_name (env : Env) (F : Nat) (rec : Core) (fnOk compoundOk fundOk : Bool) (ct : CTok)
+    (pairs : List (Tok × Tok)) (w : World) (bmid b' : Buf) (term : Tok)
+    (hty : ct.type = "NAME") (hpv : plainVal ct.value = true) (hnc : Gen.nameCompoundStart.contains ct.value = false)
+    (hall : ∀ p ∈ pairs, p.1.type = "DBL_COLON" ∧ p.2.type = "NAME" ∧ plainVal p.2.value = true)
+    (hy : Yields env.cfg w.buf (pairs.flatMap (fun p => [p.1, p.2])) bmid)
+    (htok : tokenEofOk env.cfg bmid = .ok (some term, b')) (hlt : term.type ≠ "<") (hdc : term.type ≠ "DBL_COLON")
+    (hF : pairs.length + 1 ≤ F) :
+    ∃ (w' : World) (t' : Tok),
+      interp env (parsePqnameStep F rec (some ct) fnOk compoundOk fundOk) w =
+        (logged env w' "parse_pqname",
+          .ok (.mk (.name ct.value none :: pairs.map (fun p => .name p.2.value none)) none false, none)) ∧
+      SameParse w w' ∧ tokenEofOk env.cfg w'.buf = .ok (some t', b') ∧ t'.type = term.type ∧ t'.value = term.value :=
+  plain_pqname env F rec fnOk compoundOk fundOk ct pairs w bmid b' term hty hpv hnc hall hy htok hlt hdc hF
+
+end
+
+section
+open P
+
+theorem C02_type_name (env : Env) (F D : Nat) (operatorOk : Bool) (ct : CTok) (pairs : List (Tok × Tok))
+    (w : World) (bmid b' : Buf) (term : Tok)
+    (hty : ct.type = "NAME") (hpv : plainVal ct.value = true) (hnc : Gen.nameCompoundStart.contains ct.value = false)
+    (hall : ∀ p ∈ pairs, p.1.type = "DBL_COLON" ∧ p.2.type = "NAME" ∧ plainVal p.2.value = true)
+    (hy : Yields env.cfg w.buf (pairs.flatMap (fun p => [p.1, p.2])) bmid)
+    (htok : tokenEofOk env.cfg bmid = .ok (some term, b')) (hstop : typeStop term.type = true)
+    (hlt : term.type ≠ "<") (hdc : term.type ≠ "DBL_COLON") (hF : pairs.length + 2 ≤ F) :
+    ∃ (w' : World) (t' : Tok),
+      interp env (parseTypeStep F (core F (D + 1)) (some ct) operatorOk) w =
+        (w', .ok (some (.type (.mk (.name ct.value none :: pairs.map (fun p => .name p.2.value none)) none false) false false), {})) ∧
+      SameButLog w w' ∧ tokenEofOk env.cfg w'.buf = .ok (some t', b') ∧ t'.type = term.type ∧ t'.value = term.value :=
+  parseType_plain env F D operatorOk ct pairs w bmid b' term hty hpv hnc hall hy htok hstop hlt hdc hF
+
+theorem C02_declarator_variable (env : Env) (F D : Nat) (pt : DType) (location : LocRef) (doxygen : Option String)
+    (ops : List Tok) (x tm : Tok) (d1 : DType) (w : World) (bmid bx b' : Buf)
+    (blk : Block) (rest : List Block) (hstack : w.stack = blk :: rest) (hk : blk.hdr.kind ≠ .cls)
+    (hmu : w.muted = false) (hfa : ¬ env.faultAt = some w.delivered)
+    (hpt : isFnType pt = false)
+    (hy : Yields env.cfg w.buf ops bmid) (ha : applyPtrOps pt (ops.map (·.type)) = some d1)
+    (htx : tokenEofOk env.cfg bmid = .ok (some x, bx)) (hx : x.type = "NAME") (hxv : identVal x.value = true)
+    (httm : tokenEofOk env.cfg bx = .ok (some tm, b')) (htm : tm.type = ";" ∨ tm.type = ",")
+    (hF : ops.length + 1 ≤ F) :
+    ∃ (w7 : World) (c : CTok) (dox : Option String) (ev : Event),
+      interp env (declaratorBody F (core F (D + 1)) pt {} .none false false (location, doxygen)) w =
+        (w7, .ok (afterDeclarator tm c)) ∧
+      SigEq b' w7.buf ∧ w7.stack = { blk with loc := location } :: rest ∧
+      w7.events = w.events ++ [ev] ∧ ev.kind = .item (.variable (plainVariable x d1 dox)) ∧
+      ev.stateId = blk.id ∧ ev.parentId = rest.head?.map (·.id) ∧ (∀ d, doxygen = some d → dox = some d) ∧
+      w7.delivered = w.delivered + 1 ∧ w7.anon = w.anon ∧ w7.muted = false ∧ w7.nextId = w.nextId ∧
+      w7.mainTok = w.mainTok :=
+  declarator_variable env F D pt location doxygen ops x tm d1 w bmid bx b' blk rest hstack hk hmu hfa hpt hy ha htx hx hxv httm htm hF
+
+end
 
 end Cxx
